@@ -167,7 +167,7 @@ func runThresh(t ev.TB, part string, c *Thresh) (classes []string, concluded boo
 		t.Fatalf("rig: %v", err)
 	}
 	defer r.close()
-	inconclusive := func() ([]string, bool) { ev.Class(part, "inconclusive"); return classes, false }
+	inconclusive := func() ([]string, bool) { markInconclusive(part); return classes, false }
 	classes = []string{"proto:" + c.Proto, "dim:" + c.Dim, fmt.Sprintf("%s/%s", c.Proto, c.Dim), fmt.Sprintf("m:%d", c.M)}
 	if !r.settle("fresh case", r.conserved(true), desc) {
 		return classes, false
@@ -334,13 +334,13 @@ func (r *rig) threshTCP(c *Thresh, classes *[]string, desc func() string) bool {
 		tok := fmt.Sprintf("h%d", i)
 		conn, o := r.tcpSession(tok)
 		if o.Status == -2 {
-			ev.Class(r.part, "inconclusive")
+			markInconclusive(r.part)
 			return false
 		}
 		if conn == nil {
 			st := r.observe()
 			if r.attemptsSeen(tok) > 0 {
-				ev.Class(r.part, "inconclusive")
+				markInconclusive(r.part)
 				return false
 			}
 			ev.Fail(r.t, r.part, "breaker/max-connections-tripped-early:tcp", "session %d of %d under max_connections=%d was refused, state %s\ncase: %s", i, c.M, c.M, st, desc())
@@ -351,7 +351,7 @@ func (r *rig) threshTCP(c *Thresh, classes *[]string, desc func() string) bool {
 	during := r.observe()
 	conn, o := r.tcpSession("x")
 	if o.Status == -2 {
-		ev.Class(r.part, "inconclusive")
+		markInconclusive(r.part)
 		return false
 	}
 	if conn != nil {
@@ -360,7 +360,7 @@ func (r *rig) threshTCP(c *Thresh, classes *[]string, desc func() string) bool {
 		return true
 	}
 	if r.attemptsSeen("x") > 0 {
-		ev.Class(r.part, "inconclusive") // it reached an upstream and broke later: not a refusal
+		markInconclusive(r.part) // it reached an upstream and broke later: not a refusal
 		return false
 	}
 	*classes = append(*classes, "tripped-at-threshold")
@@ -387,16 +387,14 @@ func (r *rig) threshTCP(c *Thresh, classes *[]string, desc func() string) bool {
 
 // TestPropThreshold: the limits trip exactly at their thresholds, also after a history of failures.
 func TestPropThreshold(t *testing.T) {
-	var inconclusive, total int
+	var total int
 	ev.Check(t, func(rt *rapid.T) {
 		c := genThresh(rt)
 		var classes []string
 		var concluded bool
 		defer func() {
 			total++
-			if !concluded {
-				inconclusive++
-			}
+			_ = concluded
 			nontrivial := false // an overflow (the refused probe) or a failure path in the warm-up history
 			for _, k := range classes {
 				if k == "tripped-at-threshold" || k == "warm:timeout" || k == "warm:overflow" || k == "warm:reset" || k == "warm:disconnect" {
@@ -407,9 +405,7 @@ func TestPropThreshold(t *testing.T) {
 		}()
 		classes, concluded = runThresh(rt, "threshold", c)
 	})
-	if total >= 10 && inconclusive*5 > total {
-		t.Fatalf("too many inconclusive cases: %d of %d (machine too loaded for the rig)", inconclusive, total)
-	}
+	tooManyInconclusive(t, total)
 }
 
 var _ = mesh.TokenHeader
